@@ -7,7 +7,7 @@ from vp import lab, refs
 from vp.util import F, FL, finite_floats, close
 
 PROP = 'C08'
-RULE = ("(nm) unconstrained problems (quadratic incl. ill-conditioned, Rosenbrock-type, |x|, cosine bowl; dim 1-5; start points "
+RULE = ("(nm) unconstrained problems (quadratic incl. ill-conditioned, Rosenbrock-type, |x|, cosine bowl, and quantised bowls / floor plateaus on which exact ties between vertex energies occur; dim 1-5; start points "
         "incl. exact zeros; xtol/ftol; maxiter/maxfun): NelderMeadSimplexSolver step-wise and fmin vs a harness-owned "
         "transcription of scipy.optimize.fmin and vs the installed scipy.optimize.fmin; cases whose reference run has a decisive "
         "comparison with relative margin < 1e-7 are discarded and counted (near-tie guard).  (powell) PowellDirectionalSolver "
@@ -108,6 +108,7 @@ def run_nm(case, ctx):
         ctx.label('vs-installed-scipy')
     kinds = set(t[2] for t in trace[1:])
     if 'shrink' in kinds: ctx.label('shrink')
+    for k_ in sorted(kinds): ctx.label('move:%s' % k_)
     ctx.nontrivial(rit >= 10)
 
 
@@ -367,8 +368,8 @@ def _kf_f9b(case, subcheck, detail):
 
 
 TESTS = [
-    Test('nm', run_nm, strategy=lambda tier: local_cases(tier, ('quad', 'rosen', 'abs', 'cos')), examples={'quick': 640, 'thorough': 20000}),
-    Test('powell', run_powell, strategy=lambda tier: local_cases(tier, ('quad', 'rosen', 'cos', 'abs')), examples={'quick': 320, 'thorough': 8000}),
+    Test('nm', run_nm, strategy=lambda tier: local_cases(tier, ('quad', 'rosen', 'abs', 'cos', 'stair', 'stair', 'plateau')), examples={'quick': 960, 'thorough': 30000}),
+    Test('powell', run_powell, strategy=lambda tier: local_cases(tier, ('quad', 'rosen', 'cos', 'abs', 'stair')), examples={'quick': 400, 'thorough': 10000}),
     Test('brent', run_brent, strategy=lambda tier: brent_cases(tier), examples={'quick': 800, 'thorough': 20000}),
     Test('de', run_de, strategy=lambda tier: de_cases(tier), examples={'quick': 640, 'thorough': 16000}),
     Test('de_stats', run_stats, strategy=lambda tier: stats_cases(tier), examples={'quick': 48, 'thorough': 480}, shrink={'quick': False, 'thorough': False}),
